@@ -219,7 +219,7 @@ func init() {
 	explore.Register(&explore.Check{
 		ID:         "C02",
 		Level:      "exploration",
-		ShardDepth: 4,
+		ShardDepth: 6,
 		Body:       body,
 		Rule: "option types {string, int, float64, []string, map[string]string, func(string), int base 16, []int, []*int, a bool-kinded Unmarshaler, time.Duration} (a flag with the digit short name -4 is declared next to it) x short name {x, é (2 bytes), € (3 bytes)} x optional-argument {no, yes} x PassDoubleDash {off, on} x context {alone, between two other options, before a plain word} x {fresh parser, parser that parsed [sync -x] before, where sync declares the same short letter as a flag} " +
 			"x value V in every string of length <= 3 (quick) / <= 4 (thorough) over {v = - . 5 0 \" \\ é : space f I} plus 29 hand-picked values (negative numbers in three notations, --, option-looking words); for each cell all admissible spellings among " +
@@ -228,7 +228,7 @@ func init() {
 		Assumptions:  []string{"separate-token form demanded only where the statement allows it: not for optional-argument options, not when V has option syntax unless V is a clear numeral of the signed numeric option's own type and base, not for -- under PassDoubleDash", "-xV not demanded when V is empty or starts with '='"},
 		RequiredHits: []string{"agreeing-success", "agreeing-error", "spellings=10", "cluster-compared", "cluster-with-argument"},
 		Bound:        [2]string{"values <= 3 characters", "values <= 4 characters"},
-		BudgetS:      [2]int{100, 1500},
+		BudgetS:      [2]int{170, 1500},
 	})
 }
 
